@@ -249,6 +249,22 @@ pub fn close_coef(x: f64, r: f64) -> bool {
     close(x, r, 1e-8, 1e-13)
 }
 
+/// Tolerance for a single hypergeometric coefficient of population size `big_n`, relative also in
+/// the far tails. The unchanged tree is within 1e-13 (N <= 170, factorial table) and 2e-12 (larger N,
+/// log-gamma) of the exact value; the bounds leave a factor of 50 to 100 for other correct
+/// implementations and still separate rounding from a lower-precision accumulator, a truncated
+/// series or an approximation formula.
+pub fn close_coef_n(x: f64, r: f64, big_n: u64) -> bool {
+    let rel = if big_n <= 170 {
+        1e-11
+    } else if big_n <= 5000 {
+        1e-10
+    } else {
+        1e-8
+    };
+    close(x, r, rel, 1e-300)
+}
+
 /// Tolerance for statistics; `scale` is a natural magnitude of the terms involved.
 pub fn close_stat(x: f64, r: f64, scale: f64) -> bool {
     if x.is_nan() || r.is_nan() {
